@@ -144,7 +144,7 @@ func c50Resolve(target string, t *c50Tree) c50Res {
 	var dec []byte
 	for i := 0; i < len(p); i++ {
 		if p[i] == '%' {
-			if i+2 >= len(p)+0 && i+2 > len(p)-1 {
+			if i+2 >= len(p) {
 				return r
 			}
 			h, l := unhex(p[i+1]), unhex(p[i+2])
@@ -703,6 +703,22 @@ func c50One(rt *rapid.T, rec *ev.Rec, w *c50World, tree, view *c50Tree, rule c50
 	}
 	ceGot := strings.ToLower(strings.TrimSpace(hdr1(m, "Content-Encoding")))
 	cl := hdr(m, "Content-Length")
+	notServed := func(got string) {
+		key := "existing-file-not-served"
+		if res.Escapes && w.compress && ae != "" {
+			// discriminating feature: the un-cleaned path joined to the root names an
+			// existing <name>.gz/.br OUTSIDE the root
+			if c50OutsideSibling(w, rule, res.Decoded, ae) {
+				key = "precompressed-stat-outside-root"
+			}
+		}
+		rec.Fail(rt, key, wit, "%s %s denotes existing file %q under the root but the answer is %s", method, target, res.Rel, got)
+	}
+	if m.Status == 400 && !c50StrictTarget(target) {
+		// the target contains bytes RFC 3986 does not allow unencoded: rejecting it is legitimate
+		rec.Class("rejected-nonstrict-target")
+		return
+	}
 
 	if m.Status == 200 {
 		if len(cl) != 1 {
@@ -714,6 +730,7 @@ func c50One(rt *rapid.T, rec *ev.Rec, w *c50World, tree, view *c50Tree, rule c50
 			return
 		}
 		var hit *repr
+		hitIdx := -1
 		for i := range allowed {
 			a := &allowed[i]
 			if a.ce != ceGot {
@@ -721,11 +738,11 @@ func c50One(rt *rapid.T, rec *ev.Rec, w *c50World, tree, view *c50Tree, rule c50
 			}
 			if method == "HEAD" {
 				if fmt.Sprint(len(a.body)) == cl[0] {
-					hit = a
+					hit, hitIdx = a, i
 					break
 				}
 			} else if bytes.Equal(a.body, m.Body) {
-				hit = a
+				hit, hitIdx = a, i
 				break
 			}
 		}
@@ -760,6 +777,14 @@ func c50One(rt *rapid.T, rec *ev.Rec, w *c50World, tree, view *c50Tree, rule c50
 			rec.Fail(rt, "content-length-mismatch", wit, "GET %s: Content-Length %s, file has %d bytes", target, cl[0], len(hit.body))
 			return
 		}
+		if res.Kind == kFile && hitIdx >= nPrimary {
+			// the default file was served although the path denotes an existing file
+			if res.TrailSlash {
+				return
+			}
+			notServed("the default file")
+			return
+		}
 		rec.Class("served-" + hit.what)
 		return
 	}
@@ -779,15 +804,7 @@ func c50One(rt *rapid.T, rec *ev.Rec, w *c50World, tree, view *c50Tree, rule c50
 		if res.TrailSlash && m.Status == 404 {
 			return // "file/" may be treated as a directory reference
 		}
-		key := "existing-file-not-served"
-		if res.Escapes && w.compress && ae != "" {
-			// discriminating feature: the un-cleaned path joined to the root names an
-			// existing <name>.gz/.br OUTSIDE the root
-			if c50OutsideSibling(w, rule, res.Decoded, ae) {
-				key = "precompressed-stat-outside-root"
-			}
-		}
-		rec.Fail(rt, key, wit, "GET/HEAD %s denotes existing file %q under the root but the answer is %d", target, res.Rel, m.Status)
+		notServed(fmt.Sprintf("status %d", m.Status))
 	case kMissing:
 		if m.Status != 404 {
 			key := "missing-not-404"
@@ -804,6 +821,21 @@ func c50One(rt *rapid.T, rec *ev.Rec, w *c50World, tree, view *c50Tree, rule c50
 	case kDir:
 		// a directory is neither a file nor a missing file: any non-200 answer (or the default file) is accepted
 	}
+}
+
+// c50StrictTarget: only pchar / "/" / "?" query characters of RFC 3986 appear unencoded.
+func c50StrictTarget(t string) bool {
+	for i := 0; i < len(t); i++ {
+		c := t[i]
+		if c >= 'a' && c <= 'z' || c >= 'A' && c <= 'Z' || c >= '0' && c <= '9' {
+			continue
+		}
+		if strings.IndexByte("-._~!$&'()*+,;=:@/?%", c) >= 0 {
+			continue
+		}
+		return false
+	}
+	return true
 }
 
 // c50OutsideSibling: lexically joining root + decoded path + ".gz"/".br" (without
